@@ -170,7 +170,18 @@ func (b *Batch) Run() int {
 				fmt.Printf("verif: unstable case (class %s not reproduced on re-run), not reported\n", f.class)
 				continue
 			}
-			c, o = b.minimise(c, f.class)
+			if c.Meta == nil {
+				c, o = b.minimise(c, f.class)
+			} else {
+				// Orchestrator-side oracles depend on generator metadata that
+				// would no longer describe a reduced case: report as found.
+				o = o2
+			}
+			if o.Verdict != "violation" {
+				oc := *o
+				oc.Verdict, oc.Class = "violation", f.class
+				o = &oc
+			}
 		}
 		key = f.class + "|" + featureKey(c)
 		if reported[key] {
